@@ -1,5 +1,6 @@
 import Bmc.Proofs.GenLoops.BuildAndSend
 import Bmc.Proofs.C01
+import Bmc.Lemmas.SessionSpec
 /-! # C01, last clause ("…and commands sent on the session are accepted by the BMC and answered"), about `SendCommand` AS REGENERATED -/
 namespace Bmc.Proofs.EndToEnd
 open Bmc Bmc.Wire Bmc.Crypto Bmc.Proto Bmc.GoOrch Bmc.GoLoops Bmc.Gen.Loops Bmc.Lemmas.GenLoops Bmc.Proofs.GenLoops
@@ -24,13 +25,84 @@ theorem generated_SendCommand_answered (C : Ops) (hC : C.Lawful) (c : Cmd) (hc :
       r.2.1.sent = [datagramOf C s.keys c s.inbound iv] ∧
       r.1 = .ok ((handler ⟨(s.inbound + 1) % 4294967296, c.fn, c.cmd, c.body, c.ent, c.lun, c.req⟩).1,
                  if rsp != 0 ∧ bd (handler ⟨(s.inbound + 1) % 4294967296, c.fn, c.cmd, c.body, c.ent, c.lun, c.req⟩).2 = false
-                 then some .response else none) := by
+                 then some .response else none) ∧
+      r.2.2.inbound = UInt32.ofNat ((s.inbound + 1) % 4294967296) := by
   obtain ⟨reply, h1, h2⟩ := command_answered C hC c s hid hr iv ivs handler bseq hb biv rest hx
   refine ⟨reply, h1, ?_⟩
   intro r
-  obtain ⟨a1, _, a3⟩ := V2Session_SendCommand_gen_eq C c hc s hs hid hr (iv :: ivs) (.reply reply :: rest) (by simp)
-    (by simp only [List.length_cons]; omega) fuel (by simp only [List.length_cons]; omega) bd name rsp [] K hK
+  have hl' : (Outcome.reply reply :: rest).length ≤ (iv :: ivs).length := by simp only [List.length_cons]; omega
+  obtain ⟨a1, a2, a3⟩ := V2Session_SendCommand_gen_eq C c hc s hs hid hr (iv :: ivs) (.reply reply :: rest) (by simp)
+    hl' fuel (by simp only [List.length_cons]; omega) bd name rsp [] K hK
+  have hspec := sendLoop_spec C c hx.ser s hs (iv :: ivs) (.reply reply :: rest) hl'
+  have hcls : (expected (classify C s.keys c) (.reply reply :: rest)).1 = 1 := by
+    have e := hspec.2.1
+    rw [h2] at e
+    simp only [] at e
+    have := congrArg List.length e
+    simpa using this.symm
+  have hi : (sendLoop C c s (iv :: ivs) (.reply reply :: rest)).1.inbound = (s.inbound + 1) % 4294967296 := by
+    rw [hspec.2.2.2, hcls]
   rw [h2] at a1 a3
-  exact ⟨by simpa using a1, a3⟩
+  refine ⟨by simpa using a1, a3, ?_⟩
+  rw [hi] at a2
+  rw [← a2, UInt32.ofNat_toNat]
+
+/-- a session state holding keys `k` and counter `i` (whatever else a `Sess` records is immaterial: `ReuseC17`) -/
+def sessAt (k : Keys) (i : Nat) : Sess :=
+  { inbound := i, localID := k.localID, remoteID := k.remoteID, integ := k.integ, k1 := k.k1, k2 := k.k2 }
+
+/-- the console — `SendCommand` AS REGENERATED, threading its own connection value from one call to the next — and the conforming
+    BMC in conversation: command after command on one session, each datagram handed to the BMC, the BMC's answer handed back -/
+def generatedConverse (C : Ops) (handler : BmcReq → UInt8 × Bytes) (bd : Bytes → Bool) (k : Keys) :
+    Nat → Conn Decoded → Nat → List (Cmd × Bytes × Bytes × String × Opaque) → List (RF (UInt8 × Option GoErr))
+  | _, _, _, [] => []
+  | i, K, bseq, (c, iv, biv, name, rsp) :: rest =>
+    match bmcAnswer C k handler bseq biv (datagramOf C k c i iv) with
+    | none => [.err]
+    | some reply =>
+      let r := V2Session_SendCommand (sessWorld C k c bd) 1 (sessConsts k) (cmdOf c name rsp)
+                ({ ivs := [iv], script := [.reply reply], sent := [] }, K)
+      r.1 :: generatedConverse C handler bd k ((i + 1) % 4294967296) r.2.2 (bseq + 1) rest
+
+/-- what the caller must receive from each call in turn -/
+def generatedAnswers (handler : BmcReq → UInt8 × Bytes) (bd : Bytes → Bool) :
+    Nat → List (Cmd × Bytes × Bytes × String × Opaque) → List (RF (UInt8 × Option GoErr))
+  | _, [] => []
+  | i, (c, _, _, _, rsp) :: rest =>
+    let q : BmcReq := ⟨(i + 1) % 4294967296, c.fn, c.cmd, c.body, c.ent, c.lun, c.req⟩
+    .ok ((handler q).1, if rsp != 0 ∧ bd (handler q).2 = false then some .response else none)
+      :: generatedAnswers handler bd ((i + 1) % 4294967296) rest
+
+/-- **EVERY COMMAND OF A SESSION IS ANSWERED, about the regenerated code, for histories of any length**: on a session whose keys
+    both sides hold, for any sequence of well-posed commands, every lawful crypto, any starting counter and connection content —
+    each datagram the translated `SendCommand` sends passes the conforming BMC's checks, is understood as the caller's command with
+    the next sequence number, and each call returns the BMC handler's completion code for that very command. -/
+theorem generated_all_commands_answered (C : Ops) (hC : C.Lawful) (handler : BmcReq → UInt8 × Bytes) (bd : Bytes → Bool) (k : Keys)
+    (hid : k.localID < 4294967296) (hr : k.remoteID < 4294967296) (i : Nat) (hi : i < 4294967296)
+    (K : Conn Decoded) (hK : K.inbound = UInt32.ofNat i) (bseq : Nat)
+    (cmds : List (Cmd × Bytes × Bytes × String × Opaque)) (hb : bseq + cmds.length < 4294967296)
+    (hc : ∀ e ∈ cmds, e.1.ent < 4294967296)
+    (hx : ∀ e ∈ cmds, ∀ q : Nat, Exchange C k e.1 e.2.1 e.2.2.1
+            (handler ⟨q, e.1.fn, e.1.cmd, e.1.body, e.1.ent, e.1.lun, e.1.req⟩).1
+            (handler ⟨q, e.1.fn, e.1.cmd, e.1.body, e.1.ent, e.1.lun, e.1.req⟩).2) :
+    generatedConverse C handler bd k i K bseq cmds = generatedAnswers handler bd i cmds := by
+  induction cmds generalizing i K bseq with
+  | nil => rfl
+  | cons e rest ih =>
+    obtain ⟨c, iv, biv, name, rsp⟩ := e
+    have hx0 := hx (c, iv, biv, name, rsp) (by simp) ((i + 1) % 4294967296)
+    have hc0 := hc (c, iv, biv, name, rsp) (by simp)
+    obtain ⟨reply, hans, hrun⟩ := generated_SendCommand_answered C hC c hc0 (sessAt k i) hi hid hr iv [] handler bseq
+      (by simp at hb; omega) biv [] (by simp) 1 (by simp) bd name rsp K hK hx0
+    simp only [] at hrun
+    obtain ⟨_, hres, hinb⟩ := hrun
+    have hans' : bmcAnswer C k handler bseq biv (datagramOf C k c i iv) = some reply := hans
+    simp only [generatedConverse, hans', generatedAnswers]
+    have hres' : (V2Session_SendCommand (sessWorld C k c bd) 1 (sessConsts k) (cmdOf c name rsp)
+        ({ ivs := [iv], script := [.reply reply], sent := [] }, K)).1 = _ := hres
+    rw [hres']
+    congr 1
+    exact ih ((i + 1) % 4294967296) (Nat.mod_lt _ (by decide)) _ hinb (bseq + 1) (by simp at hb ⊢; omega)
+      (fun e he => hc e (by simp [he])) (fun e he q => hx e (by simp [he]) q)
 
 end Bmc.Proofs.EndToEnd
